@@ -26,6 +26,17 @@ CHECKS = {
              "zero-coding) and must always decode to the same message. Exhaustive over the stated product.",
         note="Datagrams rejected by the header parser are out of scope; byte identity after a successful parse is not demanded when a float decodes to NaN "
              "or the zero-coding is non-canonical; mutation alphabet {00,01,7F,80,FF} per offset."),
+    "C08": dict(
+        category="exploration", design_ref="DESIGN.md §4 C08",
+        technique="bounded-exhaustive enumeration of combinator spec trees (descriptor grammar) x structurally derived value domains (adapters wire-first) "
+                  "x {endianness, pod mode, trailing bytes} against a reference encoding built alongside each domain",
+        text="Every spec tree up to depth 2 from 66 leaves, 13-18 unary wrappers and 9-10 n-ary/context forms over an 8-leaf basis, plus 419 depth-3 "
+             "interaction-family trees, is instantiated from the real combinators; every value of its derived domain (<=24) is written and read back in both "
+             "byte orders, pod and non-pod, with none / 00 / FF01 trailing bytes. Required: value equality, reader position == bytes written, trailing bytes "
+             "unread, agreement with the reference encoding, a non-raising calc_size() matching every encoding length, out-of-domain probes raise.",
+        note="Domains are boundary alphabets and covering rows, not full cross products; n-ary and depth-2 compositions use an 8-/4-leaf basis; ambiguous values "
+             "(trailing NUL in Str, embedded terminators, empty payloads under IfPresent/greedy/empty_is_none, duplicate dict keys) are out of domain; "
+             "NumPy/LLSD/Forward/FHReader specs are not in the grammar; quantiser saturation is C10's. Trusted: hmc/specgen.py reference encoder and norm()."),
     "C04": dict(
         category="model_checking", design_ref="DESIGN.md §4 C04",
         technique="explicit-state BFS over the real InjectionTracker (deepcopy successors, canonical state hashing, deviation bound)",
@@ -34,6 +45,17 @@ CHECKS = {
              "every ID in range. Bounded exhaustive: the right level for a pure-data state machine whose bugs are 2-3 events deep.",
         note="IDs older than an injection that aged out of the window are out of scope (bounded memory); packet-ID wrap-around excluded; "
              "production window is 10000, harness uses 1..3 to reach eviction."),
+    "C12": dict(
+        category="exploration", design_ref="DESIGN.md §4 C12",
+        technique="bounded-exhaustive enumeration of template messages and of LLSD trees (depth<=3/4) x 6 codec paths x 4 process time zones, plus an "
+                  "exhaustive sweep of a date's 10^6 sub-second values",
+        text="All 481 templates with every alphabet element of every variable (LLSD-carriable domain) are driven through LLSDMessageSerializer (dict and XML "
+             "routes) and EventQueueManager.inject_message and compared value by value; all LLSD trees of depth <= 3 (thorough: <= 4 with the full pair product "
+             "at depth 2) over 59 typed leaves go through binary (+/- header), BinaryLLSD spec, notation, XML and zip under 4 process time zones and are compared "
+             "against an independent tagged canonical model (LLSD type, bit-exact reals, instants in microseconds).",
+        note="Siblings are each-choice; naive datetime is taken as UTC; strings containing CR are outside the XML route's domain (XML line-end normalisation); "
+             "newline-bearing map keys are not held to the notation-newline sentence (it speaks of string values); tz database, msggen/refwire and stdlib "
+             "datetime arithmetic trusted."),
 }
 
 PENDING_REASON = "check not built yet (build in progress; will be claimed once its harness exists)"
